@@ -730,6 +730,7 @@ func init() {
 		"(time.Time).Before": func(x *Exec, site ssa.Instruction, fn *ssa.Function, args []Value, st *State) Value {
 			return Lt(x.timeNs(x.term(args[0])), x.timeNs(x.term(args[1])))
 		},
+		"strings.Map":                   stringsMap,
 		"encoding/json.Unmarshal":       unmarshalLike(1),
 		"gopkg.in/yaml.v3.Unmarshal":    unmarshalLike(1),
 		"(*sync.RWMutex).Lock":    lockOp("W", true),
@@ -1002,4 +1003,24 @@ func unmarshalLike(argIdx int) intrinsic {
 		st.gen = &Gen{kind: "havoc", parent: pre, guard: x.curBlockReach, tag: "dec", allocBefore: allocBefore, writable: writable}
 		return mkres()
 	}
+}
+
+// strings.Map(f, s) with a closure literal that captures nothing: a deterministic function of
+// s, named after the closure so that contracts can refer to it.
+func stringsMap(x *Exec, site ssa.Instruction, fn *ssa.Function, args []Value, st *State) Value {
+	w := x.u.W
+	var name string
+	switch f := args[0].(type) {
+	case *Closure:
+		if len(f.Bindings) > 0 {
+			x.fail("strings.Map with a capturing closure")
+		}
+		name = f.Fn.Name()
+	case *FuncRef:
+		name = f.Fn.Name()
+	default:
+		x.fail("strings.Map with an unknown function value")
+	}
+	x.u.usedPureUF["strings.Map$"+name] = true
+	return w.UF("strings.Map$"+name, SStr, x.term(args[1]))
 }
